@@ -85,6 +85,8 @@ pub struct GenParams {
     pub tag_boost: bool,
     /// never write one temp target twice (C09's no-rewrite rule needs that)
     pub no_temp_rewrite: bool,
+    /// occasionally make the first line of a source longer than 8 KiB
+    pub long_lines: bool,
 }
 
 impl Default for GenParams {
@@ -104,6 +106,7 @@ impl Default for GenParams {
             unicode: true,
             tag_boost: false,
             no_temp_rewrite: false,
+            long_lines: true,
         }
     }
 }
@@ -854,6 +857,12 @@ fn gen_source(g: &mut Gen, plans: &mut Vec<SrcPlan>, me: usize) -> String {
                 emit(g, &mut lines, &mut open, format!("{indent}{a}"), false);
             }
         }
+    }
+    if g.p.long_lines && g.c.chance(1, 25) {
+        // a first line longer than any I/O buffer (8 KiB): the line ending is still that of
+        // the first line
+        let n = 8_100 + g.c.below(12_000);
+        lines.insert(0, LineOut { text: "L".repeat(n) });
     }
     // terminators
     let n = lines.len();
